@@ -212,10 +212,10 @@ def RoundTripStatement : Prop :=
 
 /-- **roundtrip_partial** (T2 on the fragment `Ty.frag`: primitives, alias references without
     arguments — INCLUDING the ones named `int`/`bin`/`ref`, printed `<'int>` resp. `(<'int>)` by the
-    repairs dea6b02 / b32cfa9 —, `^` and `^N`, resources, non-partial tuples — named or not, with
-    named or positional fields —, function types, unions and intersections, nested WITHOUT BOUND):
+    repairs dea6b02 / b32cfa9 —, `^` and `^N`, resources, tuples and PARTIAL types — named or not, with named or positional
+    fields —, function types, unions and intersections, nested WITHOUT BOUND):
     the parser's model reads the printed text back to exactly the same AST and stops exactly at
-    `rest`. Missing cases (the full statement is `RoundTripStatement`): partial types, spreads and
+    `rest`. Missing cases (the full statement is `RoundTripStatement`): spreads and
     `'alias[...]` tuples, applied aliases `'t<…>`, process types, module types, `'`/`'<…>`. For
     these the statement is evaluated on generated ASTs of every constructor by the harness (search,
     not proof). -/
@@ -264,6 +264,18 @@ example : printTy exampleTy2 = "(A[x: <'int>] & ^2 | (#(<'bin>) -> ('a & (<'ref>
   decide +kernel
 example : parseType (printTy exampleTy2 ++ "]".toList) = .ok exampleTy2 "]".toList :=
   roundtrip_partial exampleTy2 (by decide +kernel) (by decide +kernel) _ (by decide +kernel)
+
+/-- partial types, in base-type, member and function position:
+    `#(x: 'a, [^]) -> (P(y: ()) | () | (z: <'int>))` -/
+def exampleTy3 : Ty :=
+  .func (.tuple none [.field (some "x".toList) (.ident "a".toList []), .field none (.tuple none [.field none (.cycle none)] false)] true)
+    (.union [.tuple (some "P".toList) [.field (some "y".toList) (.tuple none [] true)] true,
+             .tuple none [] true,
+             .tuple none [.field (some "z".toList) (.ident "int".toList [])] true])
+
+example : printTy exampleTy3 = "#(x: 'a, [^]) -> (P(y: ()) | () | (z: <'int>))".toList := by decide +kernel
+example : parseType (printTy exampleTy3 ++ " // c".toList) = .ok exampleTy3 " // c".toList :=
+  roundtrip_partial exampleTy3 (by decide +kernel) (by decide +kernel) _ (by decide +kernel)
 
 /-- the side condition is necessary: behind a bare tuple name, a line that starts with `(` makes the
     whole alias unreadable (defect D2, repaired in the formatter by 63d9fac) -/
